@@ -279,20 +279,7 @@ proof fn lemma_ls<V>(n: NfaBuilder<u8, V>, w: Seq<u8>)
     }
 }
 
-// ---- property-level semantics of the overlapping search (C01): at every end position, all registered patterns
-// that end there, longest first; end positions in increasing order ----
-spec fn reg_match<V>(n: NfaBuilder<u8, V>, q: Seq<u8>, end: nat) -> Match<V> {
-    let o = n.states@[walk(n, q).unwrap()].output.unwrap();
-    Match { length: o.1@ as usize, end: end as usize, value: o.0 }
-}
-// matches for the registered patterns among the suffixes p[i..], p[i+1..], ... (longest first)
-spec fn suf_matches<V>(n: NfaBuilder<u8, V>, p: Seq<u8>, i: nat, end: nat) -> Seq<Match<V>>
-    decreases p.len() - i
-{
-    if i >= p.len() { Seq::empty() } else {
-        (if is_registered(n, p.skip(i as int)) { seq![reg_match(n, p.skip(i as int), end)] } else { Seq::empty() }) + suf_matches(n, p, i + 1, end)
-    }
-}
+//@include ghost_sem.rs
 // suffixes of w that are longer than its longest trie-node suffix p are not registered: both give the same matches
 proof fn lemma_suf_shift<V>(n: NfaBuilder<u8, V>, w: Seq<u8>, p: Seq<u8>, j: nat, end: nat)
     requires is_suffix(p, w), j <= p.len(),
